@@ -11,7 +11,8 @@
 EXTENDS Naturals, Sequences, TLC, Json, IOUtils
 
 Rec == ndJsonDeserialize(IOEnv.TRACE)
-AllDevs == {"D_new_compressor_revname_rest", "D_new_compressor_ptr_overflow"}
+AllDevs == {"D_new_compressor_revname_rest", "D_new_compressor_ptr_overflow",
+            "D_new_builder_failed_push_compressor"}
 OpenDevs == {d \in AllDevs : d \in DOMAIN IOEnv}
 
 W == INSTANCE Wire WITH Dev <- {}
@@ -43,17 +44,45 @@ T_Built ==
 
 T_Big ==
   /\ IsEv("bigbuilt")
-  /\ Rec[l].side = "new"
   /\ Rec[l].old_reads = Rec[l].new_reads
   /\ \/ Rec[l].built = "ok" /\ Rec[l].old_reads /\ used' = used
-     \/ /\ Rec[l].built = "ok" /\ ~Rec[l].old_reads
+     \/ /\ Rec[l].built = "ok" /\ ~Rec[l].old_reads /\ Rec[l].side = "new"
         /\ "D_new_compressor_revname_rest" \in OpenDevs
         /\ used' = used \cup {"D_new_compressor_revname_rest"}
-     \/ /\ Rec[l].built = "panic"
+     \/ /\ Rec[l].built = "panic" /\ Rec[l].side = "new"
         /\ "D_new_compressor_ptr_overflow" \in OpenDevs
         /\ used' = used \cup {"D_new_compressor_ptr_overflow"}
 
-TNext == T_Built \/ T_Big
+\* "fill until full, then finish" with a small size limit, on either builder.
+\* After every push: Ok adds exactly one to the count of the item's section,
+\* an error leaves all four counts alone.  The finished message stays within
+\* the limit, its header carries the last counts, and the referee and both
+\* readers find exactly the accepted items in it (a failed push leaves no
+\* trace).
+StepsOk(steps) ==
+  \A i \in 1..Len(steps) :
+    LET prev == IF i = 1 THEN <<0, 0, 0, 0>> ELSE steps[i - 1].counts
+        sec == steps[i].sec + 1
+    IN steps[i].counts = IF steps[i].ok THEN [prev EXCEPT ![sec] = prev[sec] + 1] ELSE prev
+
+FillOk(e) ==
+  /\ StepsOk(e.steps)
+  /\ Len(e.m) <= IF e.limit < 12 THEN 12 ELSE e.limit
+  /\ <<W!QD(e.m), W!AN(e.m), W!NS(e.m), W!AR(e.m)>> = e.steps[Len(e.steps)].counts
+  /\ e.qok => (SpecReads(e.m, e.items) /\ e.old_reads /\ e.new_reads)
+
+T_Fill ==
+  /\ IsEv("fill")
+  /\ (IF FillOk(Rec[l]) THEN TRUE ELSE FALSE)
+  /\ used' = used
+
+T_FillPanic ==
+  /\ IsEv("fillpanic")
+  /\ Rec[l].side = "new"
+  /\ "D_new_builder_failed_push_compressor" \in OpenDevs
+  /\ used' = used \cup {"D_new_builder_failed_push_compressor"}
+
+TNext == T_Built \/ T_Big \/ T_Fill \/ T_FillPanic
 TSpec == TInit /\ [][TNext]_tvars
 
 Accepted ==
